@@ -69,6 +69,8 @@ class ResendRule(BaseRule):
             return const(v)
         if isinstance(v, (tuple, frozenset)) and all(isinstance(x, (int, str, bytes)) for x in v):
             return const(v)
+        if isinstance(v, dict) and all(isinstance(k_, str) and isinstance(x, (int, str, bytes, float, bool, type(None))) for k_, x in v.items()):
+            return dict_av({k_: const(x) for k_, x in v.items()}, open_=False)  # a table of keyword arguments kept at module level
         return None
 
     def call(self, it, st, node, recv, pos, kw):
@@ -334,6 +336,18 @@ class ResendRule(BaseRule):
 
     def loop_break(self, it, stmt, st):
         st.ts["loop_broke"] = True
+
+    def getitem(self, it, st, node):
+        # `url[:1]` / `url[0]` of the string the caller gave: compared with "/" it is the startswith("/") test by another spelling
+        if isinstance(node.value, ast.Name):
+            v = st.env.get(it.var(node.value.id))
+            if v is not None and st.view(v).sym == "p:url":
+                sl = node.slice
+                if isinstance(sl, ast.Slice) and sl.lower is None and sl.step is None and isinstance(sl.upper, ast.Constant) and sl.upper.value == 1:
+                    return AV("unk", sym="given-url[:1]", none=False)
+                if isinstance(sl, ast.Constant) and sl.value == 0:
+                    return AV("unk", sym="given-url[0]", none=False)
+        return None
 
     def compare(self, it, st, node, a, b):
         # `name.lower() in retries.remove_headers_on_redirect`
